@@ -32,6 +32,7 @@ func init() {
 	ops["clean"] = opClean
 	ops["validate"] = opValidate
 	ops["combo"] = opCombo
+	ops["ctype"] = opCtype
 	ops["escape"] = opEscape
 	ops["agg"] = opAgg
 	ops["fmax"] = opFmax
@@ -541,6 +542,12 @@ func opValidate(a map[string]interface{}) (string, string, interface{}) {
 	p := parser.VerifValidateInput(aStr(a, "text"), "(", ")")
 	b := parser.VerifValidateInput(aStr(a, "text"), "{", "}")
 	return "ok", "", J{"paren": p.ErrorCode, "brace": b.ErrorCode}
+}
+
+// ctype: parser.extractComponentType on the header of a nested component
+func opCtype(a map[string]interface{}) (string, string, interface{}) {
+	ty, prop, err := parser.VerifExtractComponentType(aStr(a, "text"))
+	return "ok", "", J{"code": err.ErrorCode, "type": ty, "prop": prop}
 }
 
 func opEscape(a map[string]interface{}) (string, string, interface{}) {
